@@ -22,6 +22,50 @@ def nofill_unlimited(sig, r, beh):
     return None
 
 
+def external_unwritten(sig, r, beh):
+    """KNOWN FINDING pattern (C04): dataset moved to an external file before it is completely written:
+    cells never written are not pre-filled with the fill value (they read as zeros, or the read fails
+    because the external file ends before them)"""
+    steps = beh["steps"]
+    c = steps[0].get("args", {}) if steps and steps[0]["op"] == "Create" else {}
+    ly = c.get("layout") or ["contig"]
+    if ly[0] != "ext" or not c.get("fillmode"):
+        return None
+    if r["status"] == "mismatch" and r["mismatch"]["op"] in ("Read",):
+        exp = r["mismatch"]["exp"]
+        full = steps[r["mismatch"]["step"]].get("out", {})
+        if -1000 in (full.get("data") or []):
+            return {"pattern": "external-dataset-unwritten-cells-not-filled"}
+    if "rejected_at" in r:
+        i = r["rejected_at"]
+        if 0 <= i < len(steps) and steps[i]["op"] == "Read" and -1000 in (steps[i].get("out", {}).get("data") or []):
+            return {"pattern": "external-dataset-unwritten-cells-not-filled"}
+    return None
+
+
+def comp_rewrite_after_read(sig, r, beh):
+    """KNOWN FINDING pattern (C04/C05): a non-chunked compressed dataset is rewritten in full through a dataset id
+    that has been read from since it was selected"""
+    steps = beh["steps"]
+    c = steps[0].get("args", {}) if steps and steps[0]["op"] == "Create" else {}
+    ly = c.get("layout") or ["contig"]
+    if ly[0] not in ("comp", "nbit"):
+        return None
+    read_seen = False
+    for s in steps:
+        if s["op"] == "Read":
+            read_seen = True
+        elif s["op"] == "Reopen":
+            read_seen = False
+        elif s["op"] == "Write" and read_seen:
+            return {"pattern": "compressed-sds-rewritten-after-read"}
+    return None
+
+
+def both(sig, r, beh):
+    return nofill_unlimited(sig, r, beh) or external_unwritten(sig, r, beh) or comp_rewrite_after_read(sig, r, beh)
+
+
 def check(tier, replay, prop="C03"):
     return model_flow(
         prop, tier, replay, spec="SDArray.tla", mods="ops_h,ops_sd", trace=("Trace_SDArray.tla", "Trace_SDArray.cfg"),
